@@ -105,7 +105,10 @@ def relabel(rng, wf):
 
 def random_wf(rng, maxn=4, heavy=False):
     wf = _random_wf(rng, maxn, heavy)
-    return relabel(rng, wf) if rng.random() < 0.3 else wf
+    wf = relabel(rng, wf) if rng.random() < 0.3 else wf
+    if rng.random() < 0.4:
+        wf["header"] = {"time": rng.choice([True, False, "false"]), "generator": {"name": "harness"}}
+    return wf
 
 
 def _random_wf(rng, maxn=4, heavy=False):
@@ -274,6 +277,8 @@ def random_cfg(rng, alg=None, family="roomy", nobs=None, maxn=4):
         # an observation that produces no data at all (a data product rate
         # below half a unit is rounded to 0 by the configuration parser)
         obs[rng.randrange(len(obs))]["rate"] = 0
+    if len(obs) > 1 and rng.random() < 0.15:
+        obs[1]["o"] = "b_x"      # observation names may contain underscores
     if len(obs) > 1 and rng.random() < 0.3:
         # two pipelines using one and the same workflow
         import copy as _copy
@@ -293,6 +298,7 @@ def random_cfg(rng, alg=None, family="roomy", nobs=None, maxn=4):
             t += 2 + rng.randint(0, 2)
         hot = 10
         cold = 6 + rng.randint(0, 3)
+        realtime = rng.random() < 0.3     # a non-positive cold rate means 'real time' transfers
     elif family == "overlap":
         # two observations whose ingest windows overlap and whose joint volume
         # exceeds the hot buffer (each fits on its own)
@@ -308,7 +314,7 @@ def random_cfg(rng, alg=None, family="roomy", nobs=None, maxn=4):
     cfg = {"K": K, "machines": machines, "arrays": arrays, "maxIngest": max_ingest,
            "hotCap": hot, "coldCap": cold,
            "hotRate": max(1, max(o["rate"] for o in obs) + rng.randint(0, 2)),
-           "coldRate": rng.randint(1, 3), "obs": obs}
+           "coldRate": -1 if (family == "tight" and realtime) else rng.randint(1, 3), "obs": obs}
     alg = alg or rng.choice(["batch", "batch", "queue", "plan", "greedy"])
     cfg["alg"] = alg
     if alg == "batch":
